@@ -43,6 +43,128 @@ CLAIMED["C02"] = dict(
     note="As C01. Default (None) timestamps come from the C-level wall clock of the compiled builder and are rank-compressed by the projection; explicit timestamps are exact.",
 )
 
+TRACE_NOTE = ("Trusted: TLC; the simulated cluster's Kafka rules (its own steps are validated by the same trace spec); aiokafka's "
+              "request/response codecs at the simulated broker; the independent batch reader/writer harness/kbatch.py; asyncio FIFO scheduling "
+              "on the virtual-time loop (futures/tasks hashed by creation order for reproducibility).")
+CLAIMED["C03"] = dict(
+    technique="TLA+ spec ConsumerFetch model-checked by TLC (every cut of fetch replies, seek/pause/reset interleavings, liveness) + TLC trace validation of the real consumer on a simulated cluster",
+    category="model_checking",
+    text="ConsumerFetch.tla models position/reset/pause state, the acceptance rule for fetch replies, the lazily consumed buffer and getone/getmany, "
+         "against a DECLARATIVE visibility oracle over the partition log; TLC checks ExactlyVisibleOnceInOrder and PositionBounds over a family of log shapes, "
+         "every cut of a reply at batch boundaries, seeks/pauses at any point, both isolation levels, plus the liveness property ReachesEnd under fairness. "
+         "The real AIOKafkaConsumer then runs on the virtual-time loop against simulated leaders serving real v0/v1/v2 bytes; every Take (FetchResult.getone/getall), "
+         "Return (what the application got), Set/Del of the fetch buffer, Seek/AwaitReset/ResetTo/Pause/Resume and leader reply is an event TLC must explain with "
+         "the spec's actions, invariants evaluated at every step, and a quiescent End event demands that delivery reached the end of the log.",
+    design_ref="4/C03", note=TRACE_NOTE)
+CLAIMED["C08"] = dict(
+    technique="TLA+ spec IsolationFilter (step-by-step filter == declarative visibility, exhaustive over a log family) + spec-enumerated cases replayed into the real PartitionRecords + end-to-end TLC trace validation",
+    category="model_checking",
+    text="IsolationFilter.tla models PartitionRecords._unpack_records branch by branch (consume aborted index, abort marker, skip aborted batch, skip control, "
+         "yield) and TLC proves, for every log of <=4-5 batches from 8 templates (2 producers' transactional data, commit/abort markers incl. solitary ones, plain data, "
+         "compaction holes), every start offset, every cut and both isolation levels, with the aborted index in the broker's (marker) order, that its output equals the "
+         "declarative visibility and that the position ends past everything filtered. The same case family is enumerated by the harness (count compared with TLC's "
+         "initial states in the thorough tier), concretised as real v2 bytes with control records and pushed through the real PartitionRecords with both the compiled and "
+         "the pure-Python reader; TLC judges each recorded (records, next_fetch_offset). End-to-end, the real consumer reads transactional logs on the simulated cluster "
+         "(ConsumerFetch trace validation).",
+    design_ref="4/C08", note=TRACE_NOTE)
+CLAIMED["C13"] = dict(
+    technique="ConsumerFetch reset sub-machine model-checked by TLC + TLC trace validation of the real consumer's reset path (OffsetFetch/ListOffsets faults, seek at varied instants)",
+    category="model_checking",
+    text="UseCommitted / NoCommitted / AwaitReset / ApplyReset / FetchOutOfRange / Seek of ConsumerFetch.tla carry C13 as action guards: a fresh partition takes the "
+         "committed offset when one exists, else the configured policy; a reset result must be the broker's log start / log end for the isolation level; policy none "
+         "surfaces NoOffsetForPartition / OffsetOutOfRange; Seek always wins. TLC explores committed in {absent, inside, below start, beyond end} x 3 policies x 2 levels "
+         "x a seek at every state. The real consumer (group and group-less, ListOffsets v0..v3 brokers, lookups dropped/timed out/answered with retriable errors, "
+         "a seek() 0-100 ms after assignment) is traced and TLC must explain every ResetTo/AwaitReset/ErrorSet event with those guarded actions.",
+    design_ref="4/C13", note=TRACE_NOTE + " Named deviation: a seek_to_beginning/end racing an in-flight lookup of the other strategy may receive that lookup's result (C13 speaks of explicit seek() only).")
+CLAIMED["C09"] = dict(
+    technique="TLA+ spec RecordBatchFormat (builder/reader/splitter life cycle + format arithmetic) model-checked by TLC; recorded builder/reader outputs of all four codec pairs judged by TLC",
+    category="model_checking",
+    text="RecordBatchFormat.tla holds the format rules as operators (v2 61-byte header layout, zig-zag varint lengths, record sizes, v0/v1 overheads, attribute bits, "
+         "the batch-size rule) and the builder / reader / splitter state machines; TLC checks size accounting, the limit rule, lastOffsetDelta, first/max timestamp, "
+         "closed-is-final and the splitter on its own, then evaluates thousands of recorded rows: each row holds both encoders' decisions, metadata, sizes, header bytes "
+         "read back at the spec's offsets, and the round trip through all four (compiled, pure-Python) encoder/decoder pairs, CRC acceptance and single-bit-flip rejection, "
+         "and splitter output on concatenations of mixed formats with a partial tail. PARTIAL (DESIGN 5): the numeric value of CRC-32C and compressed payload bytes are "
+         "only cross-checked between implementations, not specified.",
+    design_ref="4/C09, 5",
+    note="Trusted: TLC; cramjam/zlib via aiokafka.codec; the harness 'broker step' that assigns offsets/LogAppendTime; no byte-level reference encoder for record framing (sizes + two independent decoders).")
+CLAIMED["C11"] = dict(
+    technique="TLA+ specs WireTypes (primitive codecs as byte-sequence operators) and ApiNegotiation (prepare/build/header/reply pairing) model-checked by TLC; exhaustive negotiation table and codec table of the real classes judged by TLC",
+    category="model_checking",
+    text="ApiNegotiation.tla states the negotiation rule (highest common version inside the broker's range, same key/version reply schema, header form by flexibility, "
+         "inexpressible semantic parameter => IncompatibleBrokerVersion) and TLC explores it on the real classes' version lists; the harness calls the real Request.prepare() "
+         "on EVERY builder x every 0<=lo<=hi<=12 (plus 'API not advertised') x every parameter combination (input space equality with the spec's checked by TLC) and TLC judges "
+         "each outcome. WireTypes.tla defines Int8..64, (unsigned/zig-zag) varints, (compact) strings/bytes/arrays, tagged fields and the header forms as operators to "
+         "Seq(0..255); TLC checks decode(encode(x))=x on small domains and judges the real encoders' bytes on boundary values and on generated values of all 206 struct classes "
+         "(bytes must equal the spec's encoding of the schema shape). PARTIAL (DESIGN 5): field-by-field layout of the 100+ structs is compared with the spec's type-directed "
+         "encoding of the library's own schema, not with Kafka's message definitions.",
+    design_ref="4/C11, 5",
+    note="Trusted: TLC; the Kafka fact tables inside the specs (first flexible version, lowest version per semantic parameter), anchored on literal bytes of tests/test_protocol.py; UTF-8/Float64 packing done by the harness.")
+CLAIMED["C12"] = dict(
+    technique="TLA+ spec Connection model-checked by TLC (chunking, bad frames, timeouts, cancels, wrap) + TLC trace validation of the real AIOKafkaConnection/AIOKafkaClient.send on a scripted peer + replay of TLC-simulated behaviours",
+    category="model_checking",
+    text="Connection.tla models send / byte chunks / _handle_frame / close with one action per branch (head-of-queue match, done waiter skipped but popped, mismatch -> "
+         "CorrelationIdError + close, 0.8.2 quirk, decode failure, unsolicited frame, bad size, EOF, reset, waiter timeout via conn.send and via client.send, cancel); TLC checks "
+         "OnlyOwnReply, InRequestOrder, FailureFailsAll, NoCrossDelivery, an action property and FailureCloses (liveness) for <=4 requests, every chunking at byte boundaries, "
+         "correlation wrap inside the run. The real connection is driven on the virtual-time loop against a scripted peer: every split of the reply stream into <=3 chunks, "
+         "random finer splits, every bad-frame kind at every position, EOF/reset at every byte, timeouts/cancels at 5 arrival phases, wrap at 2^31; each run's events "
+         "(send with correlation id, chunk delivered, frame handled, waiter outcomes with the marker of the reply they got, close reason) must be a behaviour of the spec; "
+         "TLC -simulate behaviours of the model are replayed into the real connection as scripts.",
+    design_ref="4/C12", note="Trusted: TLC; the scripted in-memory transport; aiokafka's Response.encode used to build peer replies.")
+CLAIMED["C14"] = dict(
+    technique="TLA+ relational spec Assignors (Valid / RangeBalanced / RRBalancedIfIdentical / StickyBalanced) checked by TLC on a reference assignor; outputs of the real assign() on the exhaustive bounded input space judged by TLC",
+    category="model_checking",
+    text="Assignors.tla states validity (each partition of each subscribed topic with metadata has exactly one subscribed owner, nothing else assigned) and the three balance "
+         "notions relationally; TLC checks a nondeterministic reference assignor against them (non-vacuity by ASSUMEs and by a mutated reference) and enumerates the bounded "
+         "input space, whose cardinality must equal the number of inputs the harness ran. The real RangePartitionAssignor / RoundRobinPartitionAssignor / StickyPartitionAssignor "
+         "run on every input (quick: <=3 members x <=2 topics x {no metadata,0..3 partitions} x every non-empty subscription; thorough: 4 x 3 x {none,0..4} = 609,144 inputs) plus random "
+         "chains to 12 members x 8 topics x 12 partitions with real user-data round trips, each assign() under an alarm; TLC evaluates every recorded (input, output).",
+    design_ref="4/C14", note="Trusted: TLC; a FakeCluster offering topics()/partitions_for_topic(); the protocol Struct codecs for user data.")
+CLAIMED["C15"] = dict(
+    technique="same Assignors spec: Unchanged / OnlyDepartedRedistributed / NewMembersTakeWithoutShuffling judged by TLC on two-round records of the real sticky assignor (user data through the real encoding)",
+    category="model_checking",
+    text="For every first-round input of C14's space the real sticky assignor is run again (a) unchanged, (b) minus every non-empty proper subset of members, (c) plus 1-2 new "
+         "members, previous assignments travelling through StickyAssignorUserDataV1 and each member's class state; random chains of <=5 rounds; plus previous assignments generated "
+         "by the spec's reference assignor. TLC evaluates the stickiness predicates on each recorded step (identical-subscription clauses only where the property claims them).",
+    design_ref="4/C15", note="As C14. group_coordinator never calls on_generation_assignment, so both generation modes (-1 and tracked) are checked.")
+CLAIMED["C18"] = dict(
+    technique="TLA+ spec ScramHandshake with symbolic crypto terms, all server behaviours (honest / impostor / one-field tampering) model-checked by TLC; every spec behaviour concretised with hashlib and replayed into the real ScramAuthenticator, traces judged by TLC",
+    category="model_checking",
+    text="ScramHandshake.tla models the client generator step by step over symbolic terms (Hi, HMAC, H, XOR) against 12 server kinds; TLC checks ClientMessagesWellFormed, "
+         "NonceMustExtend, DoneOnlyWithPasswordProof, DoneOnlyWithHonestServer, HonestServerAcceptsProof/NotRejected, deadlock freedom and termination. Every terminal behaviour is "
+         "interpreted with real SHA-256/512 and driven through the real ScramAuthenticator; sampled cases cover user names with ',' '=' and non-ASCII, salts 1..64 bytes, iteration "
+         "counts 1..20000, bit flips / truncation / wrong-password signatures; the client's messages are parsed back to terms, an independent RFC 5802 server verifies the proof, and "
+         "TLC validates each recorded run against the spec.",
+    design_ref="4/C18", note="Trusted: hashlib/hmac/base64/stringprep; TLC. Credentials restricted to SASLprep-stable ones (the client applies no SASLprep).")
+
+CLAIMED["C04"] = dict(
+    technique="TLA+ spec GroupMembership model-checked by TLC with a crash enabled in every state + TLC trace validation (Trace_Group) of real group members: commits vs. deliveries, start offsets, at-least-once",
+    category="model_checking",
+    text="GroupMembership.tla models members (join prepare with last commit, join, sync, adopt, deliver, commit, heartbeat, crash, restart) and Kafka's coordinator (join/sync barriers, "
+         "generation and member checks on OffsetCommit); TLC checks CommitBehindDelivery, NoDeliveryBelowStart, CommittedWasDelivered for every interleaving with the crash point "
+         "placed in every state, and the liveness property AtLeastOnce. Real consumers (1-4 members) run against the simulated coordinator with kills, stops, late joins, commit "
+         "faults and fail-overs; Trace_Group.tla makes every accepted OffsetCommit, every first position of a newly owned partition and every delivery a guarded action "
+         "(commit <= delivered prefix since the assignment's start; new owner starts at the committed offset it was given; deliveries contiguous from there), and a final event "
+         "demands that every record was delivered by some incarnation.",
+    design_ref="4/C04", note=TRACE_NOTE + " Plain logs (every offset visible).")
+CLAIMED["C05"] = dict(
+    technique="GroupMembership spec (TLC): AdoptedIsDistributed / DisjointWithinGeneration / RevokeBeforeAssign + Trace_Group guards on real members' Adopt, listener callbacks, deliveries",
+    category="model_checking",
+    text="TLC proves on the design model that an adopted assignment is exactly the one distributed for the generation, that assignments of one generation are disjoint and that every "
+         "member's revoke callback precedes any assigned callback of the resulting generation (join barrier). On real runs the trace spec rejects: an Adopt that differs from the "
+         "SyncGroup reply of that member and generation, overlaps another live member of the generation or contains an unsubscribed topic; assignment() differing from it; a JoinGroup "
+         "sent before the member's on_partitions_revoked finished; on_partitions_assigned starting while a member of that generation is still inside its revoke callback; any record "
+         "delivered while the reassignment gate is up, from a partition outside the live assignment, or after a subscription change superseded the subscription.",
+    design_ref="4/C05", note=TRACE_NOTE + " Silence boundary = Subscription._assign (one await before on_partitions_assigned).")
+CLAIMED["C06"] = dict(
+    technique="GroupMembership spec (TLC liveness Converges under fairness, finite crash budget) + Trace_Group guards JoinAdvertisesAll / JoinThenSync / sync identity + quiescent-state convergence check on real runs",
+    category="model_checking",
+    text="TLC checks <>[]Converged on the design model under weak fairness with a finite budget of crashes/restarts. On real runs every JoinGroup request must advertise exactly the "
+         "configured strategies in order, may not be sent while a successful JoinGroup reply still awaits its SyncGroup (unless a fault, fail-over, stop or subscription change for "
+         "that member intervened) and the SyncGroup must carry the generation and member id the reply assigned; after the quiet period the End event demands: coordinator Stable, every "
+         "live member in the latest generation with >= 1 successful heartbeat in the window and no rejoin pending, no JoinGroup in the window, assignments covering every partition of "
+         "every subscribed topic. Fault matrix: JoinGroup v0/v1/v2/v5, all coordinator error codes of a per-API table, drops, lost replies, fail-over with/without state, session expiry.",
+    design_ref="4/C06", note=TRACE_NOTE)
+
 NOT_APPLICABLE = {
     "C10": "memory safety of C-level reads on hostile bytes has no TLA+ state to bind to; outcome depends on heap neighbours (needs sanitizers, a different technique) - see DESIGN.md section 5",
 }
